@@ -47,22 +47,22 @@ VARIABLES ctl,        \* role
           remoteSet,  \* remote credentials and candidate known
           started,    \* check timer running
           rc,         \* known remote candidates (addresses)
-          pairs,      \* Addrs -> [st, nom, ning, tx]
+          pairs,      \* Addrs -> [st, nom, ning, tx, hi]  (hi: the remote candidate is the signalled host candidate,
+                      \*          not a peer-reflexive one: the pair has the higher pair priority, RFC 5245 5.7.2)
+          ord,        \* addresses in the order their pairs were created (check-list order among equal priorities)
           active,     \* selected pair ("none" | address); connected = active # "none"
           ntx, nticks,
           out,        \* datagrams emitted by the last step (observation)
           hist
 
 core  == <<rc, pairs, active>>
-mvars == <<ctl, remoteSet, started, rc, pairs, active, ntx, nticks>>
+mvars == <<ctl, remoteSet, started, rc, pairs, ord, active, ntx, nticks>>
 vars  == <<mvars, out, hist>>
 
 Addrs  == {"cand", "unk"}
-NoPair == [st |-> "none", nom |-> FALSE, ning |-> FALSE, tx |-> 0]
-Prio(a) == IF a = "cand" THEN 2 ELSE 1      \* host candidate (126) before peer-reflexive (110): RFC 5245 4.1.2
-Order == <<"cand", "unk">>                    \* check list order
+NoPair == [st |-> "none", nom |-> FALSE, ning |-> FALSE, tx |-> 0, hi |-> FALSE]
+Prio(ps, a) == IF ps[a].hi THEN 2 ELSE 1    \* host candidate (126) before peer-reflexive (110): RFC 5245 4.1.2
 
-Classes == {"request", "response", "error"}
 \* (USE-CANDIDATE, role attribute and USERNAME only occur in requests; a request carries its sender's own
 \* transaction id)
 Datagrams ==
@@ -74,7 +74,7 @@ Datagrams ==
 
 Init ==
     /\ ctl \in Roles /\ remoteSet = FALSE /\ started = FALSE
-    /\ rc = {} /\ pairs = [a \in Addrs |-> NoPair] /\ active = "none"
+    /\ rc = {} /\ pairs = [a \in Addrs |-> NoPair] /\ ord = <<>> /\ active = "none"
     /\ ntx = 0 /\ nticks = 0 /\ out = <<>> /\ hist = <<>>
 
 Log(r) == hist' = Append(hist, r)
@@ -84,11 +84,11 @@ Req(to, uc)  == [to |-> to, cls |-> "request", tx |-> "new", uc |-> uc]
 Resp(to)     == [to |-> to, cls |-> "response", tx |-> "echo", uc |-> FALSE]
 
 (* --- performCheck: a new transaction on the pair; controlling agents nominate aggressively ---------- *)
-Checked(ps, a, nominate, n) == [ps EXCEPT ![a] = [st |-> "inprogress", nom |-> @.nom, ning |-> nominate, tx |-> n]]
+Checked(ps, a, nominate, n) == [ps EXCEPT ![a] = [st |-> "inprogress", nom |-> @.nom, ning |-> nominate, tx |-> n, hi |-> @.hi]]
 
 (* --- completion block at the end of handleDatagram ------------------------------------------------- *)
 Select(ps, a, cur) ==
-    IF ps[a].nom /\ (cur = "none" \/ Prio(a) > Prio(cur)) THEN a ELSE cur
+    IF ps[a].nom /\ (cur = "none" \/ Prio(ps, a) > Prio(ps, cur)) THEN a ELSE cur
 
 (* --- local API -------------------------------------------------------------------------------------- *)
 SetRemote ==
@@ -96,12 +96,19 @@ SetRemote ==
     /\ remoteSet' = TRUE
     /\ rc' = rc \cup {"cand"}
     /\ pairs' = IF "cand" \in rc THEN pairs       \* already learnt as peer-reflexive: addRemoteCandidate refuses duplicates
-                ELSE [pairs EXCEPT !["cand"] = [NoPair EXCEPT !.st = "waiting"]]
+                ELSE [pairs EXCEPT !["cand"] = [NoPair EXCEPT !.st = "waiting", !.hi = TRUE]]
+    /\ ord' = IF "cand" \in rc THEN ord ELSE Append(ord, "cand")
     /\ out' = <<>>
     /\ Log([a |-> "SetRemote"])
     /\ UNCHANGED <<ctl, started, active, ntx, nticks>>
 
-FirstWaiting == IF pairs["cand"].st = "waiting" THEN "cand" ELSE IF pairs["unk"].st = "waiting" THEN "unk" ELSE "none"
+\* the check list is sorted by pair priority; pairs of equal priority stay in creation order
+FirstWaiting ==
+    IF \E a \in Addrs : pairs[a].st = "waiting" /\ pairs[a].hi
+    THEN CHOOSE a \in Addrs : pairs[a].st = "waiting" /\ pairs[a].hi
+    ELSE IF \E i \in 1..Len(ord) : pairs[ord[i]].st = "waiting"
+         THEN ord[CHOOSE i \in 1..Len(ord) : pairs[ord[i]].st = "waiting" /\ \A j \in 1..(i-1) : pairs[ord[j]].st # "waiting"]
+         ELSE "none"
 
 \* checkCandidates(): one check on the first waiting pair
 CheckCandidates ==
@@ -116,7 +123,7 @@ Start ==
     /\ started' = TRUE
     /\ CheckCandidates
     /\ Log([a |-> "Start"])
-    /\ UNCHANGED <<ctl, remoteSet, rc, active, nticks>>
+    /\ UNCHANGED <<ctl, remoteSet, rc, ord, active, nticks>>
 
 Tick ==
     /\ started /\ active = "none" /\ nticks < MaxTicks     \* the timer stops with the first nominated pair
@@ -124,7 +131,7 @@ Tick ==
     /\ nticks' = nticks + 1
     /\ CheckCandidates
     /\ Log([a |-> "Tick"])
-    /\ UNCHANGED <<ctl, remoteSet, started, rc, active>>
+    /\ UNCHANGED <<ctl, remoteSet, started, rc, ord, active>>
 
 Retransmit(a) ==
     /\ Timers /\ pairs[a].st = "inprogress"
@@ -137,7 +144,7 @@ TxTimeout(a) ==
     /\ pairs' = [pairs EXCEPT ![a] = [@ EXCEPT !.st = "failed", !.tx = 0]]
     /\ out' = <<>>
     /\ Log([a |-> "TxTimeout", p |-> a])
-    /\ UNCHANGED <<ctl, remoteSet, started, rc, active, ntx, nticks>>
+    /\ UNCHANGED <<ctl, remoteSet, started, rc, ord, active, ntx, nticks>>
 
 (* --- handleDatagram --------------------------------------------------------------------------------- *)
 \* the key exists: requests are checked with the local password, responses with the remote one
@@ -147,7 +154,7 @@ RoleConflict(d) ==
     \/ ctl /\ (d.ra = "controlling" \/ d.uc)
     \/ ~ctl /\ d.ra = "controlled"
 
-NoEffect == out' = <<>> /\ UNCHANGED <<rc, pairs, active, ntx>>
+NoEffect == out' = <<>> /\ UNCHANGED <<rc, pairs, ord, active, ntx>>
 
 HandleRequest(d) ==
     LET a  == d.src
@@ -158,6 +165,7 @@ HandleRequest(d) ==
                 [] p0.st = "succeeded"   -> [pairs EXCEPT ![a] = [p0 EXCEPT !.nom = p0.nom \/ d.uc]]
                 [] OTHER                 -> [pairs EXCEPT ![a] = p0]
     IN /\ rc' = rc \cup {a}
+       /\ ord' = IF pairs[a].st = "none" THEN Append(ord, a) ELSE ord
        /\ pairs' = ps
        /\ ntx' = IF trig THEN ntx + 1 ELSE ntx
        /\ out' = <<Resp(a)>> \o (IF trig THEN <<Req(a, ctl)>> ELSE <<>>)
@@ -169,13 +177,13 @@ HandleResponse(d) ==
     ELSE IF d.src # p
          THEN \* answer from an unexpected address: the check fails
               /\ pairs' = [pairs EXCEPT ![p] = [@ EXCEPT !.st = "failed", !.tx = 0]]
-              /\ out' = <<>> /\ UNCHANGED <<rc, active, ntx>>
+              /\ out' = <<>> /\ UNCHANGED <<rc, ord, active, ntx>>
          ELSE LET ps == IF d.cls = "response"
                         THEN [pairs EXCEPT ![p] = [@ EXCEPT !.st = "succeeded", !.nom = @ \/ pairs[p].ning, !.tx = 0]]
                         ELSE [pairs EXCEPT ![p] = [@ EXCEPT !.st = "failed", !.tx = 0]]
               IN /\ pairs' = ps
                  /\ active' = Select(ps, p, active)
-                 /\ out' = <<>> /\ UNCHANGED <<rc, ntx>>
+                 /\ out' = <<>> /\ UNCHANGED <<rc, ord, ntx>>
 
 Recv(d) ==
     /\ IF ~Accepted(d) THEN NoEffect
@@ -215,7 +223,7 @@ TypeOK ==
 
 Reinit(role) ==
     /\ ctl' = role /\ remoteSet' = FALSE /\ started' = FALSE
-    /\ rc' = {} /\ pairs' = [a \in Addrs |-> NoPair] /\ active' = "none"
+    /\ rc' = {} /\ pairs' = [a \in Addrs |-> NoPair] /\ ord' = <<>> /\ active' = "none"
     /\ ntx' = 0 /\ nticks' = 0 /\ out' = <<>> /\ hist' = <<>>
 
 Bound == Len(hist) <= MaxHist /\ ntx <= MaxTx
